@@ -79,9 +79,14 @@ def circuit_boolean_optimizer(
 
         qc_sec = exprs_to_quantum(exprs=n_exps, symbols=symbols, compiler=compiler)
 
+        # The new gates are spliced in place of the old ones, so every expression
+        # has to be computed on the qubit of its own symbol: a section that only
+        # moves values between qubits is re-synthesised as a pure relabelling of
+        # the qubit map (with no gates), and cannot be used
         if (
             len(qc_sec.gates) > len(section.gates)
             or (qc_sec.used_qubits - section_qubits) != set()
+            or (not preserve and any(qc_sec[s] != qc[s] for s, e in n_exps))
         ):
             continue
 
